@@ -4,6 +4,7 @@ pub mod c09;
 pub mod c12;
 pub mod c14;
 pub mod c15;
+pub mod c16;
 
 use crate::common::*;
 use serde_json::Value;
@@ -16,6 +17,7 @@ pub fn run_property(ctx: &mut Ctx) -> bool {
         "C12" => c12::run(ctx),
         "C14" => c14::run(ctx),
         "C15" => c15::run(ctx),
+        "C16" => c16::run(ctx),
         _ => return false,
     }
     true
@@ -56,6 +58,7 @@ pub fn replay(body: &Value) -> i32 {
         "segments" => replay_part(&c09::SegPart, body),
         "decode" => replay_part(&c06::DecPart, body),
         "crc" => replay_part(&c15::CrcPart, body),
+        "udp" => replay_part(&c16::UdpPart, body),
         "roundtrip" => replay_part(&c05::RtPart, body),
         "checksum" => replay_part(&c14::CkPart, body),
         "confinement" => replay_part(&c12::FsPart, body),
